@@ -64,6 +64,97 @@ func pruneConstBranches(p *Prog, overlay map[string][]byte) (map[string][]byte, 
 	edits := map[string][]textEdit{}
 	var done []string
 
+	// constant tables: package-level variables initialised with a map / array / slice literal and afterwards only
+	// indexed, measured or ranged over
+	constTables := map[types.Object]*ast.CompositeLit{}
+	for _, f := range p.Root.Syntax {
+		for _, d := range f.Decls {
+			gd, ok := d.(*ast.GenDecl)
+			if !ok || gd.Tok != token.VAR {
+				continue
+			}
+			for _, sp := range gd.Specs {
+				vs := sp.(*ast.ValueSpec)
+				if len(vs.Names) != len(vs.Values) {
+					continue
+				}
+				for i, nm := range vs.Names {
+					cl, isCL := vs.Values[i].(*ast.CompositeLit)
+					if !isCL {
+						continue
+					}
+					switch info.TypeOf(cl).Underlying().(type) {
+					case *types.Map, *types.Array, *types.Slice:
+						if o := info.Defs[nm]; o != nil {
+							constTables[o] = cl
+						}
+					}
+				}
+			}
+		}
+	}
+	if len(constTables) > 0 {
+		for _, f := range p.Root.Syntax {
+			var stack []ast.Node
+			ast.Inspect(f, func(n ast.Node) bool {
+				if n == nil {
+					stack = stack[:len(stack)-1]
+					return true
+				}
+				if id, ok := n.(*ast.Ident); ok {
+					if o := info.Uses[id]; o != nil && constTables[o] != nil {
+						okUse := false
+						if len(stack) > 0 {
+							switch par := stack[len(stack)-1].(type) {
+							case *ast.IndexExpr:
+								okUse = par.X == ast.Expr(id)
+								// ... and the element is not assigned to or addressed
+								if okUse && len(stack) > 1 {
+									switch gp := stack[len(stack)-2].(type) {
+									case *ast.AssignStmt:
+										for _, l := range gp.Lhs {
+											if l == ast.Expr(par) {
+												okUse = false
+											}
+										}
+									case *ast.IncDecStmt:
+										okUse = false
+									case *ast.UnaryExpr:
+										if gp.Op == token.AND {
+											okUse = false
+										}
+									case *ast.SelectorExpr:
+										// table[k].f = v
+										if len(stack) > 2 {
+											if as, isAs := stack[len(stack)-3].(*ast.AssignStmt); isAs {
+												for _, l := range as.Lhs {
+													if l == ast.Expr(gp) {
+														okUse = false
+													}
+												}
+											}
+										}
+									}
+								}
+							case *ast.CallExpr:
+								if fn, isID := par.Fun.(*ast.Ident); isID && fn.Name == "len" && len(par.Args) == 1 {
+									okUse = true
+								}
+							case *ast.RangeStmt:
+								okUse = par.X == ast.Expr(id)
+							}
+						}
+						if !okUse {
+							delete(constTables, o)
+						}
+					}
+				}
+				stack = append(stack, n)
+				return true
+			})
+		}
+	}
+
 	for _, f := range p.Root.Syntax {
 		fname := fileOf(f.Pos())
 		for _, d := range f.Decls {
@@ -77,6 +168,15 @@ func pruneConstBranches(p *Prog, overlay map[string][]byte) (map[string][]byte, 
 				for {
 					if pe, ok := e.(*ast.ParenExpr); ok {
 						e = pe.X
+						continue
+					}
+					// a write to a field or an element writes the variable
+					if se, ok := e.(*ast.SelectorExpr); ok {
+						e = se.X
+						continue
+					}
+					if ie, ok := e.(*ast.IndexExpr); ok {
+						e = ie.X
 						continue
 					}
 					break
@@ -158,7 +258,85 @@ func pruneConstBranches(p *Prog, overlay map[string][]byte) (map[string][]byte, 
 				return true
 			})
 			consts := map[types.Object]constant.Value{}
+			records := map[types.Object]*ast.CompositeLit{} // locals that hold one record of a constant table
 			var eval func(e ast.Expr) (constant.Value, bool)
+			// fieldOf: the constant value of field name in a record literal (absent: the zero value)
+			fieldOf := func(cl *ast.CompositeLit, name string) (constant.Value, bool) {
+				st, ok := info.TypeOf(cl).Underlying().(*types.Struct)
+				if !ok {
+					return nil, false
+				}
+				idx := -1
+				for i := 0; i < st.NumFields(); i++ {
+					if st.Field(i).Name() == name {
+						idx = i
+					}
+				}
+				if idx < 0 {
+					return nil, false
+				}
+				for i, el := range cl.Elts {
+					if kv, isKV := el.(*ast.KeyValueExpr); isKV {
+						if k, isID := kv.Key.(*ast.Ident); isID && k.Name == name {
+							return eval(kv.Value)
+						}
+						continue
+					}
+					if i == idx {
+						return eval(el)
+					}
+				}
+				if bt, isB := st.Field(idx).Type().Underlying().(*types.Basic); isB {
+					switch {
+					case bt.Info()&types.IsBoolean != 0:
+						return constant.MakeBool(false), true
+					case bt.Info()&types.IsInteger != 0:
+						return constant.MakeInt64(0), true
+					case bt.Info()&types.IsString != 0:
+						return constant.MakeString(""), true
+					}
+				}
+				return nil, false
+			}
+			// element: the element expression of constant table T (a package-level map / array / slice variable with a
+			// literal initialiser that is only ever indexed) at a decided key
+			element := func(ix *ast.IndexExpr) (ast.Expr, bool) {
+				id, ok := ix.X.(*ast.Ident)
+				if !ok {
+					return nil, false
+				}
+				tab := constTables[info.Uses[id]]
+				if tab == nil {
+					return nil, false
+				}
+				k, ok := eval(ix.Index)
+				if !ok {
+					return nil, false
+				}
+				_, isMap := info.TypeOf(tab).Underlying().(*types.Map)
+				next := int64(0)
+				for _, el := range tab.Elts {
+					var key constant.Value
+					val := el
+					if kv, isKV := el.(*ast.KeyValueExpr); isKV {
+						kk, okK := eval(kv.Key)
+						if !okK {
+							return nil, false
+						}
+						key, val = kk, kv.Value
+						if !isMap && kk.Kind() == constant.Int {
+							next, _ = constant.Int64Val(kk)
+						}
+					} else {
+						key = constant.MakeInt64(next)
+					}
+					next++
+					if key.Kind() == k.Kind() && constant.Compare(key, token.EQL, k) {
+						return val, true
+					}
+				}
+				return nil, false
+			}
 			eval = func(e ast.Expr) (constant.Value, bool) {
 				if tv, ok := info.Types[e]; ok && tv.Value != nil {
 					switch tv.Value.Kind() {
@@ -174,6 +352,26 @@ func pruneConstBranches(p *Prog, overlay map[string][]byte) (map[string][]byte, 
 					if o := info.Uses[x]; o != nil {
 						if v, ok := consts[o]; ok {
 							return v, true
+						}
+					}
+				case *ast.SelectorExpr:
+					// a field of a record taken from a constant table: `op := table[k]` ... `op.strict`
+					if id, isID := x.X.(*ast.Ident); isID {
+						if cl := records[info.Uses[id]]; cl != nil {
+							return fieldOf(cl, x.Sel.Name)
+						}
+					}
+					if ix, isIx := x.X.(*ast.IndexExpr); isIx {
+						if el, ok := element(ix); ok {
+							if cl, isCL := el.(*ast.CompositeLit); isCL {
+								return fieldOf(cl, x.Sel.Name)
+							}
+						}
+					}
+				case *ast.IndexExpr:
+					if el, ok := element(x); ok {
+						if _, isCL := el.(*ast.CompositeLit); !isCL {
+							return eval(el)
 						}
 					}
 				case *ast.CallExpr:
@@ -241,6 +439,16 @@ func pruneConstBranches(p *Prog, overlay map[string][]byte) (map[string][]byte, 
 					if !isVar {
 						continue
 					}
+					if ix, isIx := in.e.(*ast.IndexExpr); isIx && records[in.obj] == nil {
+						if el, ok := element(ix); ok {
+							if cl, isCL := el.(*ast.CompositeLit); isCL {
+								if _, isSt := info.TypeOf(cl).Underlying().(*types.Struct); isSt {
+									records[in.obj] = cl
+								}
+							}
+						}
+						continue
+					}
 					bt, ok := v.Type().Underlying().(*types.Basic)
 					if !ok || bt.Info()&(types.IsBoolean|types.IsInteger|types.IsString) == 0 {
 						continue
@@ -289,6 +497,31 @@ func pruneConstBranches(p *Prog, overlay map[string][]byte) (map[string][]byte, 
 					return true
 				}
 				switch x := n.(type) {
+				case *ast.BinaryExpr:
+					// a comparison with a decided boolean: `e != false` is e, `e != true` is !e
+					if (x.Op == token.EQL || x.Op == token.NEQ) && !inside(x) {
+						if _, whole := eval(x); whole {
+							return true
+						}
+						for _, pr := range [][2]ast.Expr{{x.X, x.Y}, {x.Y, x.X}} {
+							cv, ok := eval(pr[1])
+							if !ok || cv.Kind() != constant.Bool {
+								continue
+							}
+							if bt, isB := info.TypeOf(pr[0]).Underlying().(*types.Basic); !isB || bt.Info()&types.IsBoolean == 0 {
+								continue
+							}
+							same := constant.BoolVal(cv) == (x.Op == token.EQL)
+							repl := "(" + text(pr[0].Pos(), pr[0].End()) + ")"
+							if !same {
+								repl = "!" + repl
+							}
+							edits[fname] = append(edits[fname], textEdit{off(x.Pos()), off(x.End()), "(" + repl + ")" + keepNewlines([]byte(text(x.Pos(), x.End())))})
+							covered = append(covered, [2]token.Pos{x.Pos(), x.End()})
+							done = append(done, fmt.Sprintf("%s: %s decided", fd.Name.Name, text(x.Pos(), x.End())))
+							return false
+						}
+					}
 				case *ast.IfStmt:
 					if x.Init != nil || inside(x) {
 						return true
